@@ -8,6 +8,10 @@ package main
 
 import (
 	"fmt"
+	"go/constant"
+	"go/token"
+	"go/types"
+	"sort"
 	"strings"
 
 	"golang.org/x/tools/go/ssa"
@@ -40,6 +44,18 @@ func expandFacts(p *Prog, f *ssa.Function, depth int, onStack map[*ssa.Function]
 	var out []branchFact
 	for _, bf := range directFacts(f) {
 		out = append(out, bf)
+		// membership in a constant set (`_, ok := terminalStates[s]`): the equalities / inequalities it stands for
+		if key, keys, isSet := constSetLookup(p, bf.A); isSet {
+			alts := setMembershipAlts(key, bf.A.Env, keys, bf.Holds)
+			if len(alts) == 1 {
+				for _, fa := range alts[0] {
+					out = append(out, branchFact{E: bf.E, A: fa.A, Holds: fa.Holds, If: bf.If, Derived: true})
+				}
+			} else {
+				out[len(out)-1].Alts = alts
+			}
+			continue
+		}
 		if depth <= 0 {
 			continue
 		}
@@ -305,6 +321,14 @@ func outcomeAlts(p *Prog, h *ssa.Function, kind string, holds bool, e env, depth
 			}
 			fa := factAtom{withEnv(a), holds == pos}
 			out := [][]factAtom{append(append([]factAtom{}, base...), fa)}
+			// `return ok` of a lookup in a constant set: the outcome says which constants the key equals / differs from
+			if key, keys, isSet := constSetLookup(p, a); isSet {
+				out = nil
+				for _, alt := range setMembershipAlts(key, withEnv(a).Env, keys, holds == pos) {
+					out = append(out, append(append([]factAtom{}, base...), alt...))
+				}
+				return out
+			}
 			// a returned helper call: its own outcome alternatives
 			if cl, k := helperOutcome(p, a); cl != nil && depth > 0 && !onStack[calleeOf(&cl.Call)] && !p.opaque[calleeOf(&cl.Call)] {
 				h2 := calleeOf(&cl.Call)
@@ -372,6 +396,154 @@ func outcomeAlts(p *Prog, h *ssa.Function, kind string, holds bool, e env, depth
 		}
 	}
 	return alts
+}
+
+// constSetLookup: the atom tests membership of a value in a package-level set with constant keys (`_, ok :=
+// terminalStates[s]`, or `closed[s]` for a map[string]bool whose values are all true): the key tested and the set.
+func constSetLookup(p *Prog, a Atom) (ssa.Value, []string, bool) {
+	if a.Kind != "bool" || p == nil {
+		return nil, nil, false
+	}
+	var lk *ssa.Lookup
+	switch x := strip(a.X).(type) {
+	case *ssa.Extract:
+		if l, ok := x.Tuple.(*ssa.Lookup); ok && x.Index == 1 && l.CommaOk {
+			lk = l
+		}
+	case *ssa.Lookup:
+		if !x.CommaOk {
+			if mt, ok := x.X.Type().Underlying().(*types.Map); ok && mt.Elem().String() == "bool" {
+				lk = x
+			}
+		}
+	}
+	if lk == nil {
+		return nil, nil, false
+	}
+	keys, ok := p.constSetOfLookup(lk)
+	if !ok {
+		return nil, nil, false
+	}
+	return lk.Index, keys, true
+}
+
+// constSetOfLookup: the keys of the package-level constant set the lookup reads, if it reads one.
+func (p *Prog) constSetOfLookup(lk *ssa.Lookup) ([]string, bool) {
+	ld, ok := lk.X.(*ssa.UnOp)
+	if !ok || ld.Op != token.MUL {
+		return nil, false
+	}
+	g, ok := ld.X.(*ssa.Global)
+	if !ok || g.Pkg != p.Ergo {
+		return nil, false
+	}
+	return p.constSetOf(g)
+}
+
+// constSetOf: the constant string keys of a package-level map literal that nothing but the package initialiser writes.
+func (p *Prog) constSetOf(g *ssa.Global) ([]string, bool) {
+	if p.constSets == nil {
+		p.constSets = map[*ssa.Global][]string{}
+		p.constSetsBad = map[*ssa.Global]bool{}
+	}
+	if ks, ok := p.constSets[g]; ok {
+		return ks, true
+	}
+	if p.constSetsBad[g] {
+		return nil, false
+	}
+	fail := func() ([]string, bool) { p.constSetsBad[g] = true; return nil, false }
+	mt, isMap := g.Type().Underlying().(*types.Pointer).Elem().Underlying().(*types.Map)
+	if !isMap || mt.Key().Underlying().String() != "string" {
+		return fail()
+	}
+	init := g.Pkg.Func("init")
+	if init == nil {
+		return fail()
+	}
+	var mm ssa.Value
+	for _, b := range init.Blocks {
+		for _, in := range b.Instrs {
+			if st, ok := in.(*ssa.Store); ok && st.Addr == ssa.Value(g) {
+				if mm != nil {
+					return fail()
+				}
+				mm = st.Val
+			}
+		}
+	}
+	mk, ok := mm.(*ssa.MakeMap)
+	if !ok || mk.Referrers() == nil {
+		return fail()
+	}
+	var keys []string
+	for _, r := range *mk.Referrers() {
+		switch x := r.(type) {
+		case *ssa.MapUpdate:
+			k, isC := constString(x.Key)
+			if !isC {
+				return fail()
+			}
+			if mt.Elem().String() == "bool" {
+				if bv, isB := constBool(x.Value); !isB || !bv {
+					return fail()
+				}
+			}
+			keys = append(keys, k)
+		case *ssa.Store, *ssa.DebugRef:
+		default:
+			return fail()
+		}
+	}
+	// nobody else writes the map
+	for _, f := range p.Fns {
+		if f == init {
+			continue
+		}
+		for _, b := range f.Blocks {
+			for _, in := range b.Instrs {
+				switch x := in.(type) {
+				case *ssa.MapUpdate:
+					if ld, ok := x.Map.(*ssa.UnOp); ok && ld.X == ssa.Value(g) {
+						return fail()
+					}
+				case *ssa.Store:
+					if x.Addr == ssa.Value(g) {
+						return fail()
+					}
+				case ssa.CallInstruction:
+					if calleeFullName(x.Common()) == "builtin delete" && len(x.Common().Args) > 0 {
+						if ld, ok := x.Common().Args[0].(*ssa.UnOp); ok && ld.X == ssa.Value(g) {
+							return fail()
+						}
+					}
+				}
+			}
+		}
+	}
+	sort.Strings(keys)
+	p.constSets[g] = keys
+	return keys, len(keys) > 0
+}
+
+// setMembershipAlts: what a membership test in a constant set says about the key: on the positive outcome one of
+// key == k_i, on the negative outcome all of key != k_i.
+func setMembershipAlts(key ssa.Value, e env, keys []string, holds bool) [][]factAtom {
+	mk := func(k string, h bool) factAtom {
+		return factAtom{Atom{Kind: "const", X: key, C: ssa.NewConst(constant.MakeString(k), types.Typ[types.String]), Env: e}, h}
+	}
+	if holds {
+		var alts [][]factAtom
+		for _, k := range keys {
+			alts = append(alts, []factAtom{mk(k, true)})
+		}
+		return alts
+	}
+	var all []factAtom
+	for _, k := range keys {
+		all = append(all, mk(k, false))
+	}
+	return [][]factAtom{all}
 }
 
 // alwaysFails: every return of h yields a freshly built (non-nil) error.
